@@ -41,6 +41,12 @@ ASSUMPTIONS = [
     "repeat the first 54 high-frequency draws; this is outside a draw-linear statement and recorded as an "
     "observation, not a verdict",
 ]
+ASSUMPTIONS.append(
+    "hfbig cases (N = 130...2048): the full covariance needs all 2 N^2 operator columns and is out of reach there; the "
+    "clause decides the covariance frequency by frequency under the draw layout of the anchored mechanism (draw "
+    "[i, j] of the two N x N normal arrays feeds the coefficient of grid frequency [i, j]); if the library requests "
+    "another layout the clause is not claimed (stat hfbig_layout_changed_not_claimed). The full-operator cases "
+    "(N <= 34) make no such assumption")
 ENGINES = ["E1-product-enumeration", "E2-basis-exhaustion", "E5-environment-answers"]
 
 TOL = 1e-10
@@ -100,6 +106,12 @@ def cases(tier):
     for N in ((26, 34) if tier == "quick" else (26, 34, 38, 46)):
         t = TUPLES[0]
         yield Case("ft:N=%d:%s" % (N, "d=%g,r0=%g,L0=%g,l0=%g" % t), {"kind": "ft", "N": N, "t": t, "plain_only": True})
+    # the high-frequency part on grids far above the full-operator sizes, frequency by frequency
+    for N in ((130, 1024) if tier == "quick" else (130, 300, 1024, 1030, 2048)):
+        yield Case("hfbig:N=%d" % N, {"kind": "hfbig", "N": N})
+    # amplitude ~ r0^(-5/6) over nine decades of r0, and the other parameters over wide ladders
+    for fn in ("ft", "ftsh"):
+        yield Case("r0ladder:%s" % fn, {"kind": "r0ladder", "fn": fn})
     for lo in range(2, top + 1, 32):
         yield Case("dc:N=%d-%d" % (lo, min(lo + 30, top)), {"kind": "dc", "lo": lo, "hi": min(lo + 30, top)})
 
@@ -167,6 +179,10 @@ def evaluate(p):
         return _intseed_case(o, ps, p["N"])
     if p["kind"] == "fftarg":
         return _fftarg_case(o, ps, p["N"])
+    if p["kind"] == "hfbig":
+        return _hfbig_case(o, ps, p["N"])
+    if p["kind"] == "r0ladder":
+        return _r0ladder_case(o, ps, p["fn"])
     N, t = p["N"], p["t"]
     delta, r0, L0, l0 = t
     n2 = N * N
@@ -361,6 +377,84 @@ def _dc_case(o, ps, lo, hi):
         scale = max(_maxabs(dense), 1e-300)
         o.close("dense_screen_has_zero_mean", abs(float(dense.mean())) / scale, 1e-10, sub="N=%d" % N)
     o.stat("nontrivial", (hi - lo) // 2 + 1)
+    return o
+
+
+def _hfbig_case(o, ps, N):
+    """Large grids, one frequency at a time.  The covariance of the statement is a sum of one term per grid
+    frequency, Phi(f) df^2 cos(2 pi f.(x - x')).  With the draw layout of the anchored mechanism (two N x N
+    normal arrays, real parts then imaginary parts, draw [i, j] feeding the coefficient of grid frequency [i, j])
+    the two draws of one frequency contribute t_re(x) t_re(x') + t_im(x) t_im(x'), which must be exactly that
+    frequency's term - on every pixel x, for three reference pixels x'.  Probed: the zero-frequency lines
+    (fx = 0, fy = 0), the Nyquist lines, the diagonal, and scattered interior frequencies.  The clause is claimed
+    only if the library still requests exactly that layout (otherwise: counted as not claimed)."""
+    from mc.env import SeqGenerator
+    delta, r0, L0, l0 = 0.1, 0.2, 25.0, 0.01
+    n2 = N * N
+    c = N // 2
+    g = SeqGenerator(numpy.zeros(2 * n2))
+    z = numpy.asarray(ps.ft_phase_screen(r0, N, delta, L0, l0, seed=g))
+    o.stat("lib_calls", 1)
+    if [tuple(x) if x else () for x in g.calls] != [(N, N), (N, N)]:
+        o.stat("hfbig_layout_changed_not_claimed", 1)
+        o.note("hfbig_draw_requests", str(g.calls))
+        return o
+    o.check("zero_draws_zero_screen", z.shape == (N, N) and bool(numpy.all(z == 0.0)))
+    _, W = psd.grid_weights(N, delta, r0, L0, l0)
+    idx = set()
+    for k in (0, 1, 2, c - 3, c - 1, c + 1, c + 2, N - 2, N - 1):
+        idx.update([(c, k), (k, c), (0, k), (k, 0), (k, k), (k, N - 1 - k)])
+    idx.update([(7, 3), (N // 3, 2 * N // 3 + 1), (N - 5, c + 9), (c + 1, c + 1), (c - 1, c + 1)])
+    idx.discard((c, c))
+    refs = [(0, 0), (c, c), (N - 1, 3)]
+    r, s_ = numpy.indices((N, N))
+    worst = 0.0
+    wmax = float(W.max())
+    for (i, j) in sorted(idx):
+        cols = []
+        for off in (0, n2):
+            v = numpy.zeros(2 * n2)
+            v[off + i * N + j] = 1.0
+            cols.append(numpy.asarray(ps.ft_phase_screen(r0, N, delta, L0, l0, seed=SeqGenerator(v)), dtype=float))
+        o.stat("lib_calls", 2)
+        if cols[0].shape != (N, N):
+            o.check("frequency_term_exact_on_large_grid", False, sub="i=%d:j=%d" % (i, j), detail="shape %s" % (cols[0].shape,))
+            continue
+        err = 0.0
+        for (a, b) in refs:
+            got = cols[0] * cols[0][a, b] + cols[1] * cols[1][a, b]
+            want = W[i, j] * numpy.cos(2.0 * numpy.pi * ((i - c) * (r - a) + (j - c) * (s_ - b)) / float(N))
+            err = max(err, float(numpy.max(numpy.abs(got - want))) / wmax)
+        worst = max(worst, err)
+        if not err <= 1e-9:
+            o.check("frequency_term_exact_on_large_grid", False, sub="i=%d:j=%d" % (i, j), measure=err, tol=1e-9,
+                    detail="frequency index (%d, %d) of an N=%d grid (centre %d)" % (i, j, N, c))
+    if worst <= 1e-9:
+        o.check("frequency_term_exact_on_large_grid", True, measure=worst, tol=1e-9, n=len(idx))
+    o.stat("nontrivial", 1)
+    return o
+
+
+def _r0ladder_case(o, ps, fn):
+    """amplitude ~ r0^(-5/6) exactly, over nine decades of r0 (sub-millimetre to 100 m), same draws"""
+    from mc.env import SeqGenerator
+    N, delta, L0, l0 = 8, 0.1, 25.0, 0.01
+    f = ps.ft_phase_screen if fn == "ft" else ps.ft_sh_phase_screen
+    nd = 2 * N * N + (54 if fn == "ftsh" else 0)
+    vec = ((numpy.arange(nd) * 7) % 11 - 5.0) / 5.0
+    base = numpy.asarray(f(0.2, N, delta, L0, l0, seed=SeqGenerator(vec)))
+    for r0 in (2e-5, 1e-4, 5e-4, 1e-3, 0.01, 1.0, 12.0, 100.0, 1e4):
+        got = numpy.asarray(f(r0, N, delta, L0, l0, seed=SeqGenerator(vec)))
+        want = base * (r0 / 0.2) ** (-5.0 / 6.0)
+        o.close("r0_scaling_exact", _maxabs(got - want) / max(_maxabs(want), 1e-300), 1e-11, sub="%s:r0=%g" % (fn, r0))
+    for d in (1e-4, 0.004, 3.0, 250.0):
+        # phi(x; delta, L0, l0) depends on lengths only through ratios and the r0^(-5/6) amplitude: scaling every
+        # length by c scales nothing but r0's unit, so screen(c r0, c delta, c L0, c l0) = screen(r0, delta, L0, l0)
+        c = d / delta
+        got = numpy.asarray(f(0.2 * c, N, d, L0 * c, l0 * c, seed=SeqGenerator(vec)))
+        o.close("unit_of_length_irrelevant", _maxabs(got - base) / max(_maxabs(base), 1e-300), 1e-10, sub="%s:delta=%g" % (fn, d))
+    o.stat("lib_calls", 14)
+    o.stat("nontrivial", 1)
     return o
 
 
